@@ -40,7 +40,7 @@ func prop(t *rapid.T) {
 	opts := model.Options{NotAllowed: rapid.Bool().Draw(t, "handle405")}
 	cfg := chain.ProgCfg{
 		MaxDepth: rapid.IntRange(0, 2).Draw(t, "maxDepth"), MaxMw: 2, MaxStmts: 4, Fallbacks: true, Dynamic: true,
-		Script: chain.ScriptCfg{Writes: true, Data: true, Panic: rapid.SampledFrom([]int{3, 6, 12}).Draw(t, "panicRate")},
+		Script: chain.ScriptCfg{Writes: true, Data: true, Abort: 5, Panic: rapid.SampledFrom([]int{3, 6, 12}).Draw(t, "panicRate")},
 	}
 	prog := chain.GenProgram(t, w, opts, cfg)
 	hook, hookKind := genHook(t, w)
